@@ -105,6 +105,12 @@ FOCUS_TEMPLATES = [
      'arrow-partial-of-partial'),
     ("let $f := concat(?, '-', ?, '+', ?) return (%s ! (. => $f(?, 7))(8))",
      lambda q: [['str', '%d-8+7' % x] for x in q], 'arrow-partial-of-partial'),
+    # sort keys are atomized (nodes sort by their typed value, not by their structure or document order)
+    ("let $d := parse-xml(concat('<r>', string-join(%s ! concat('<i k=\"', ., '\"/>')), '</r>')) return sort($d//i/@k) ! string(.)",
+     lambda q: [['str', v] for v in sorted(str(x) for x in q)], 'sort-keys-atomized'),
+    ("let $d := parse-xml(concat('<r>', string-join(%s ! concat('<i k=\"', ., '\">x</i>')), '</r>')) "
+     "return sort($d//i, (), function($n) { $n/@k }) ! string(@k)",
+     lambda q: [['str', v] for v in sorted(str(x) for x in q)], 'sort-keys-atomized'),
 ]
 
 
